@@ -4,3 +4,8 @@ import AxVerif.Model.Wire
 import AxVerif.Generated.Wire
 import AxVerif.Driver.Wire
 import AxVerif.Thm.C20
+import AxVerif.Model.Snapshot
+import AxVerif.Model.Tuple
+import AxVerif.Generated.Tuple
+import AxVerif.Driver.Tuple
+import AxVerif.Thm.C18
